@@ -46,7 +46,9 @@ Expected(x, r) ==
     [] r.act = "JoinActive"    -> [en |-> JoinActiveEn(x, r.n),    nx |-> JoinActiveF(x, r.n)]
     [] r.act = "JoinRelease"   -> [en |-> JoinReleaseEn(x, r.n),   nx |-> JoinReleaseF(x, r.n, FALSE)]
     [] r.act = "LeaveStart"    -> [en |-> LeaveStartEn(x, r.n),    nx |-> LeaveStartF(x, r.n)]
+    [] r.act = "LeaveRead"     -> [en |-> LeaveReadEn(x, r.n),     nx |-> LeaveReadF(x, r.n)]
     [] r.act = "LeaveFirst"    -> [en |-> LeaveFirstEn(x, r.n),    nx |-> LeaveFirstF(x, r.n)]
+    [] r.act = "LeaveReadFirst" -> [en |-> LeaveReadEn(x, r.n),    nx |-> LeaveReadFirstF(x, r.n)]
     [] r.act = "LeaveSecond"   -> [en |-> LeaveSecondEn(x, r.n),   nx |-> LeaveSecondF(x, r.n)]
     [] r.act = "LeaveTransfer" -> [en |-> LeaveTransferEn(x, r.n), nx |-> LeaveTransferF(x, r.n)]
     [] r.act = "LeaveAdvisory" -> [en |-> LeaveAdvisoryEn(x, r.n), nx |-> LeaveAdvisoryF(x, r.n)]
